@@ -156,6 +156,13 @@ def invert (a : Fp6 α) : Fp6 α :=
   let F := F.invert
   ⟨C.mul F, B.mul F, A.mul F⟩
 
+instance : Add (Fp6 α) := ⟨add⟩
+instance : Sub (Fp6 α) := ⟨sub⟩
+instance : Neg (Fp6 α) := ⟨neg⟩
+instance : Mul (Fp6 α) := ⟨mul⟩
+instance : Zero (Fp6 α) := ⟨zero⟩
+instance : One (Fp6 α) := ⟨one⟩
+
 end Fp6
 
 /-! ## gfP12: x·ω + y, ω² = τ -/
@@ -203,6 +210,13 @@ def invert (a : Fp12 α) : Fp12 α :=
   let t2 := t1.invert
   let e : Fp12 α := ⟨a.x.neg, a.y⟩
   mulScalarRecv e e t2
+
+instance : Add (Fp12 α) := ⟨add⟩
+instance : Sub (Fp12 α) := ⟨sub⟩
+instance : Neg (Fp12 α) := ⟨neg⟩
+instance : Mul (Fp12 α) := ⟨mul⟩
+instance : Zero (Fp12 α) := ⟨zero⟩
+instance : One (Fp12 α) := ⟨one⟩
 
 /-- number of bits of a scalar (big.Int.BitLen) -/
 def bitLen (n : Nat) : Nat := if n = 0 then 0 else Nat.log2 n + 1
